@@ -5,10 +5,12 @@ pub mod c04;
 pub mod c05;
 pub mod c11;
 pub mod c18;
+pub mod c19;
+pub mod c20;
 pub mod exprspace;
 
 use crate::engine::Prop;
 
 pub fn all() -> Vec<Prop> {
-    vec![c01::PROP, c02::PROP, c03::PROP, c04::PROP, c05::PROP, c11::PROP, c18::PROP]
+    vec![c01::PROP, c02::PROP, c03::PROP, c04::PROP, c05::PROP, c11::PROP, c18::PROP, c19::PROP, c20::PROP]
 }
